@@ -97,7 +97,15 @@ class PyrConfig(object):
         return out
 
 
+def thorough():
+    import os
+    return os.environ.get("TOASTYSIM_TIER") == "thorough"
+
+
 def draw_pyramid(ch, max_generic=4, max_toast=3, kinds=(0, 1, 2), min_depth=0):
+    if thorough():
+        max_generic += 1
+        max_toast += 1
     kind = PyrConfig.KINDS[kinds[ch.draw(len(kinds), kind="pyr_kind")]]
     maxd = max_generic if kind == "generic" else max_toast
     depth = min_depth + ch.draw(maxd - min_depth + 1, kind="depth")
